@@ -54,6 +54,12 @@ def gen_case(rnd, i, thorough):
     if model == "name_Cumulative":
         case["extra"] = {"num_votes": rnd.randint(1, 4)}
     case["entry"] = "generate_profile"
+    if rnd.random() < 0.15:
+        # the documented from_params route: intervals are drawn from a Dirichlet (small alpha gives tiny supports)
+        case["from_params"] = True
+        case["alpha"] = rnd.choice([0.01, 0.1, 1.0, 10.0])
+        s2c = p["slate_to_candidates"]
+        p["slate_to_candidates"] = {b: s2c[b] for b in p["bloc_voter_prop"]}  # from_params compares the key *views*
     if model == "name_BradleyTerry" and rnd.random() < 0.4:
         case["entry"] = "generate_profile_MCMC"
     if model == "slate_BradleyTerry" and rnd.random() < 0.4:
@@ -73,7 +79,14 @@ def check_case(ctx, case):
     extra = case.get("extra", {})
     random.seed(case["seed"])
     np.random.seed(case["seed"] % (2 ** 32))
-    og = observe(bp.make, model, p, extra)
+    if case.get("from_params"):
+        og = observe(bp.make_from_params, model, p, extra, case.get("alpha", 1.0))
+        ctx.count("from_params_constructions")
+        if og.ok:
+            g0, p = og.value
+            og.value = g0
+    else:
+        og = observe(bp.make, model, p, extra)
     if not og.ok:
         ctx.fail(f"{model}: constructor raised {og.etype} on a valid parameter set", case, {"msg": str(og.exc)[:300]})
         return
